@@ -166,16 +166,19 @@ claim("C09", "Lean 4 proof of join completeness (the folded pandas outer join co
       "operands of arity 1-2 incl. permuted arguments, random fact tables; the natural join is computed independently; presence, exact upward "
       "value, downward tightening and untouched independent rows are checked; tables compared with the model.",
       NOTE_COMMON, "DESIGN.md §6 C09")
-claim("C10", "Lean 4 proofs that the model is a function of the SET of facts/rows (finite-map denotation, permutation invariance of every table operation, join and upward step) + multi-hash-seed differential runs",
+claim("C10", "Lean 4 proofs that the model is a function of the SET of facts/rows (finite-map denotation, permutation invariance of every table operation, the join, every engine step, every call list and the infer loop) + multi-hash-seed differential runs",
       "Theorems C10_perm_TEq / C10_addg_perm / C10_addg_set / C10_addData_comm / C10_load_perm (tables denote finite maps; creation order and the order "
       "of facts in a data dict are irrelevant), C10_mergeB_comm_assoc / C10_mergeAll_perm / C10_writeMerged_perm (the duplicate merge is order-free), "
       "C10_foj_congr / C10_foldJoin_congr (the join's row SET depends only on the inputs' row sets), C10_groundings_congr / C10_fUpConn_congr / "
-      "C10_fUpNot_congr / C10_fDownNot_congr (whole engine steps map equal finite maps to equal finite maps and equal amounts). Tied to /repo: every "
+      "C10_fUpNot_congr / C10_fDownNot_congr / C10_fDownConn_congr / C10_fUpQuant_congr / C10_fDownQuant_congr (every engine step maps equal finite maps to "
+      "equal finite maps and equal amounts), C10_runFCalls_congr / C10_fInfer_congr (any program of calls and the whole infer loop: same finite maps, same "
+      "amounts, sweep counts and convergence verdict, whatever order the tables were filled in). Tied to /repo: every "
       "program is executed in a separate interpreter per PYTHONHASHSEED (quick 3, thorough 16) with its own shuffled fact order; all canonical "
       "dumps must coincide and equal the order-free model.",
       NOTE_COMMON + " Not covered by theorems: CPython's hash function / set and dict iteration order and pandas row order themselves (not modelled; "
-      "a seed-dependent fault that needs a seed outside those tried is not found); no map-congruence theorem for fDownConn, quantifiers and fInfer as "
-      "a whole (ingredients proved).", "DESIGN.md §6 C10")
+      "a seed-dependent fault that needs a seed outside those tried is not found). The quantifier congruences need 'each grounding stored once' "
+      "on both sides (an invariant of every call); C10_quant_needs_nodup is the counterexample without it (an artefact of association-list tables). "
+      "Constant bindings (P(x, 'a')) are not modelled.", "DESIGN.md §6 C10, §11.7")
 claim("C19", "Lean 4 proof on a dual-number (forward-mode) model of val_clamp and the upward activations + exact autograd differential correspondence",
       "Theorems C19_valClamp / C19_value_exact / C19_gradient_transparent (val_clamp x has value min(1,max(0,x)) and passes every tangent through "
       "unchanged, saturated or not, for every tangent direction), C19_and / C19_or / C19_implies (the upward output has the clamped value and exactly "
